@@ -211,7 +211,8 @@ func runCase(run *mon.Run, cfg config, progress *atomic.Int64) stats {
 			e.deqs++
 			if e.deqs > 1 {
 				violation("handoff-duplicate", "writer", map[string]any{"what": "entry handed to the writer twice", "ids": e.ids, "first_pos": e.pos, "second_pos": len(order)})
-				continue // it reached the wire once only in the model; do not feed the reader twice
+				fatal() // the queue is broken (it may now hand out stale slots for ever): stop this case
+				return
 			}
 			e.pos = len(order)
 			e.wch = ch
